@@ -1,4 +1,4 @@
-\* information only: with calls allowed while an exception is pending (FINALLY entered by an exception) the machine and the nested-transaction reference DISAGREE - the unjudged corner
+\* thorough, the unjudged corner at model level: with call-like statements allowed while an exception is pending (FINALLY entered by an exception) the layered machine still equals the always-snapshot machine, whose rule there is the C# one: a callee returning while an exception is pending is not committed
 SPECIFICATION Spec
 CONSTANTS
   NC = 2
@@ -9,7 +9,7 @@ CONSTANTS
   NVals = {}
   MaxDepth = 2
   MaxSteps = 6
-  MaxTry = 1
+  MaxTry = 2
   MaxSub = 1
   Fund = 0
   N0 = 1000
